@@ -541,6 +541,12 @@ func (s *Store) reapInternal() (int, int, error) {
 		if err != nil {
 			return 0, 0, fmt.Errorf("reading reap plan: %w", err)
 		}
+		if err := s.verifyPlanInputs(p); err != nil {
+			if s.fatalFn != nil {
+				s.fatalFn(err) // terminates the process in production; never returns
+			}
+			return 0, 0, err
+		}
 		return s.executeReapPlan(p, s.reapPlanPath)
 	} else {
 		// A reap reads and rewrites the data files, so verify their integrity
@@ -678,6 +684,55 @@ func (s *Store) reapInternal() (int, int, error) {
 	}
 
 	return s.executeReapPlan(p, s.reapPlanPath)
+}
+
+// verifyPlanInputs checks, before an interrupted reap plan is resumed, the data files
+// its checkpoint operations have not consumed yet against their recorded checksums.
+// Resuming the plan checkpoints those files and then records a fresh checksum for the
+// result, so this is the last chance to notice corruption that arose since the plan
+// was written. WAL files already consumed by the interrupted run no longer exist and
+// are skipped. The database file can only be checked while its checkpoint has not
+// started, i.e. while every WAL of the operation is still in place and no WAL has
+// been moved next to the database.
+func (s *Store) verifyPlanInputs(p *plan.Plan) error {
+	check := func(path string) error {
+		if !fsutil.FileExists(path) || !fsutil.FileExists(path+crcSuffix) {
+			return nil
+		}
+		hf, err := NewChecksummedFileFromFiles(path, path+crcSuffix)
+		if err != nil {
+			return err
+		}
+		ok, err := hf.Check()
+		if err != nil {
+			return fmt.Errorf("CRC32 check of %s: %w", path, err)
+		}
+		if !ok {
+			return fmt.Errorf("CRC32 mismatch for %s", path)
+		}
+		return nil
+	}
+	for _, op := range p.Ops {
+		if op.Type != plan.OpCheckpoint {
+			continue
+		}
+		untouched := len(op.WALs) > 0 && !fsutil.FileExists(op.DB+"-wal")
+		for _, w := range op.WALs {
+			if !fsutil.FileExists(w) {
+				untouched = false
+				continue
+			}
+			if err := check(w); err != nil {
+				return err
+			}
+		}
+		if untouched {
+			if err := check(op.DB); err != nil {
+				return err
+			}
+		}
+	}
+	return nil
 }
 
 // executeReapPlan executes a reap plan and cleans up.
@@ -926,6 +981,9 @@ func (s *Store) check() error {
 			return fmt.Errorf("checking reap plan completion: %w", err)
 		}
 		if !done {
+			if err := s.verifyPlanInputs(p); err != nil {
+				return fmt.Errorf("verifying inputs of interrupted reap plan: %w", err)
+			}
 			s.logger.Printf("re-executing interrupted reap plan at %s", s.reapPlanPath)
 			if _, _, err := s.executeReapPlan(p, s.reapPlanPath); err != nil {
 				return fmt.Errorf("executing reap plan: %w", err)
